@@ -120,6 +120,9 @@ struct Cfg {
     mw: bool,
     /// the k-th off-reader message of a scenario goes to ROUTES[(k + rot) % 4]
     rot: u8,
+    /// `with_outbound_capacity` (0 = the default queue): with a queue of 1 a burst of rejections
+    /// has to wait for the writer, it may not be dropped
+    oc: usize,
 }
 
 impl Cfg {
@@ -127,7 +130,7 @@ impl Cfg {
         (self.cap > 0).then_some(self.cap)
     }
     fn json(&self) -> Value {
-        json!({"cap": self.cap, "mw": self.mw, "rot": self.rot})
+        json!({"cap": self.cap, "mw": self.mw, "rot": self.rot, "outbound_capacity": self.oc})
     }
 }
 
@@ -1018,7 +1021,11 @@ async fn exec(cfg: Cfg, events: &[Ev]) -> Outcome {
     let router = build_router(&cfg, &sh);
     let handles: Vec<Arc<dyn repe::server::HandlerErased>> = ROUTES.iter().map(|p| router.get(p).expect("route")).collect();
     let hook_sh = sh.clone();
-    let server = WebSocketServer::new(router).with_offreader_limit(cfg.cap).on_error(move |e: &ConnectionError| {
+    let mut server = WebSocketServer::new(router).with_offreader_limit(cfg.cap);
+    if cfg.oc > 0 {
+        server = server.with_outbound_capacity(cfg.oc);
+    }
+    let server = server.on_error(move |e: &ConnectionError| {
         let rec = match e {
             ConnectionError::Saturation { method } => (0u8, method.clone()),
             ConnectionError::HandlerPanic { method } => (1u8, method.clone()),
@@ -1188,12 +1195,21 @@ fn plans(tier: Tier) -> Vec<Plan> {
                 shallow.push(v);
             }
         }
+        // the same bursts and the short sequences with an outbound queue of 1 and 2
+        if cap > 0 {
+            let mut tight: Vec<Vec<Ev>> = all.iter().filter(|s| s.len() <= 3).cloned().collect();
+            tight.extend(burst_scenarios(cap));
+            let tight = Arc::new(tight);
+            for oc in [1usize, 2] {
+                out.push(Plan { cfg: Cfg { cap, mw: oc == 2, rot: 0, oc }, seqs: tight.clone(), depth: 3, deep: 3, bursts });
+            }
+        }
         let extra: Vec<Vec<Ev>> = all.into_iter().filter(|s| s.len() > depth).collect();
         let shallow = Arc::new(shallow);
         let extra = Arc::new(extra);
         for mw in [false, true] {
             for rot in 0..4u8 {
-                let cfg = Cfg { cap, mw, rot };
+                let cfg = Cfg { cap, mw, rot, oc: 0 };
                 out.push(Plan { cfg, seqs: shallow.clone(), depth, deep: depth, bursts });
                 // deep configurations: plain with rotation 0, middleware (registered
                 // after the routes) with rotation 1
@@ -1657,6 +1673,7 @@ pub fn replay(case: &Value) -> Result<(), String> {
         cap: c["cap"].as_u64().ok_or("cfg.cap")? as usize,
         mw: c["mw"].as_bool().ok_or("cfg.mw")?,
         rot: c["rot"].as_u64().ok_or("cfg.rot")? as u8,
+        oc: c["outbound_capacity"].as_u64().unwrap_or(0) as usize,
     };
     let mut events = Vec::new();
     for e in case["events"].as_array().ok_or("events")? {
